@@ -161,6 +161,7 @@ def run_translator(ck):
            "Definition UF := Eval vm_compute in filter (fun x => negb (existsb (String.eqb x) handler_side_functions_model)) gen_handler_side_functions.\nPrint UF.\n"
            "Definition FS := Eval vm_compute in map rt_handler (filter (fun r => negb (first_pre_is_service r)) gen_routes).\nPrint FS.\n"
            "Definition NSI := Eval vm_compute in Z.of_nat (List.length gen_handler_side_sites).\nPrint NSI.\n"
+           "Definition CEL := Eval vm_compute in (gen_content_encodings, gen_content_encoding_default_400).\nPrint CEL.\n"
            "Definition PPA := Eval vm_compute in (gen_pprof_parse_appends, gen_pprof_parse_append_in_loop).\nPrint PPA.\n"
            "Definition IM := Eval vm_compute in filter (fun f => negb (prefix \"controller/\" f)) gen_unmarshal_importers.\nPrint IM.\n"
            "Definition NST := Eval vm_compute in gen_unmarshal_sites_total.\nPrint NST.\n")
@@ -224,6 +225,8 @@ def run_translator(ck):
     ck.obligation("only setters, resets and constructors of package unmarshal run on the handler goroutine", val("UF") == "[]",
                   "functions newly reachable outside the parser goroutine: " + val("UF"))
     ck.obligation("every route looks up its insert services before anything else", val("FS") == "[]", "routes: " + val("FS"))
+    ck.obligation("WithOverallContextMiddleware accepts the Content-Encoding values \"\", gzip, snappy and answers 400 to any other",
+                  val("CEL").replace(" ", "") == '([\"\";\"gzip\";\"snappy\"],true)', "switch cases, default is a 400 error: " + val("CEL"))
     ck.obligation("golangPprof.go Parse yields exactly one profile per body (the profile insert service is rectangular for one-row requests only)",
                   val("PPA").replace(" ", "") == "(1,false)", "appends to the result of Parse, inside a loop: " + val("PPA"))
     ck.obligation("package unmarshal is imported by controller/ only (its code runs on the handler goroutine up to parserDoer.Do, else below Decode() in a goroutine with tamePanic)",
